@@ -83,6 +83,24 @@ class OCons:
         return 'OCons(%s %s 0)' % (self.expr if self.is_atom() else _short(self.expr), '<=' if self.sense == 'le' else '==')
 
 
+class OCustom(OCons):
+    """A constraint given directly by its definition: z3fn(env) -> [bool], evalfn(assign) -> violation."""
+
+    def __init__(self, z3fn, evalfn, desc, polys):
+        self.z3fn, self.evalfn, self.desc, self._polys = z3fn, evalfn, desc, polys
+        self.sense = 'le'
+        self.expr = None
+
+    def is_atom(self):
+        return True
+
+    def polys(self):
+        return self._polys
+
+    def __repr__(self):
+        return 'OCustom(%s)' % self.desc
+
+
 def osub(l, r):
     if isinstance(l, OAtom) or isinstance(r, OAtom):
         return l - r
@@ -205,10 +223,18 @@ def atom_domain(atom, env):
     return []
 
 
-def cons_z3(c, env):
-    """List of z3 booleans equivalent to the constraint (definitions go to env.defs)."""
+def cons_z3(c, env, eps=0):
+    """List of z3 booleans equivalent to the constraint (definitions go to env.defs).
+    eps > 0 relaxes the constraint by a margin (tolerance regime)."""
     z3 = env.z3
     out = []
+    epsv = z3.RealVal(str(eps))
+    if isinstance(c, OCustom):
+        return c.z3fn(env) if not eps else c.z3fn(env, eps)
+    if c.is_atom() and c.sense == 'le' and not eps:
+        d = direct_le(c.expr, env)
+        if d is not None:
+            return d
     if c.is_atom():
         a = c.expr
         phis = atom_phi(a, env)
@@ -219,19 +245,61 @@ def cons_z3(c, env):
             phis = phis * len(offs)
         for ph, of in zip(phis, offs):
             lhs = k * ph + env.p(of)
-            out.append(lhs <= 0 if c.sense == 'le' else lhs == 0)
+            out.append(lhs <= epsv if c.sense == 'le' else z3.And(lhs <= epsv, lhs >= -epsv))
         out += dom
     else:
         for p in c.polys():
             t = env.p(p)
-            out.append(t <= 0 if c.sense == 'le' else t == 0)
+            out.append(t <= epsv if c.sense == 'le' else z3.And(t <= epsv, t >= -epsv))
     return out
+
+
+def direct_le(a, env):
+    """Root-free equivalents of  k*phi(arg) + off <= 0  for the rational-power atoms.
+
+    power   (k>0):  off <= 0  and  k^q |x|^p <= (-off)^q            (element-wise)
+    pnorm b=1 (k>0): off <= 0 and  k^a sum |x_i|^a <= (-off)^a
+    gmean   (k<0):  x >= 0 and ( g <= 0  or  g^N <= prod x_i^beta_i ),  g = off/(-k)
+    """
+    z3 = env.z3
+    if a.kind == 'power' and a.k > 0:
+        ps, qs = a.params
+        args = [env.p(p) for p in a.arg.reshape(-1)]
+        offs = [env.p(p) for p in a.off.reshape(-1)]
+        n = len(offs)
+        if len(args) != n:
+            args = args * n if len(args) == 1 else args
+        fp = np.broadcast_to(np.array(ps), a.off.shape).reshape(-1)
+        fq = np.broadcast_to(np.array(qs), a.off.shape).reshape(-1)
+        out = []
+        for t, of, p, q in zip(args, offs, fp, fq):
+            kq = z3.RealVal(str(a.k ** int(q)))
+            out += [of <= 0, kq * _pow(z_abs(z3, t), int(p)) <= _pow(-of, int(q))]
+        return out
+    if a.kind == 'pnorm' and a.k > 0 and a.params[1] == 1:
+        aa = int(a.params[0])
+        args = [env.p(p) for p in a.arg.reshape(-1)]
+        of = env.p(a.off.reshape(-1)[0])
+        ka = z3.RealVal(str(a.k ** aa))
+        return [of <= 0, ka * z3.Sum([_pow(z_abs(z3, t), aa) for t in args]) <= _pow(-of, aa)]
+    if a.kind == 'gmean' and a.k < 0:
+        beta = a.params
+        args = [env.p(p) for p in a.arg.reshape(-1)]
+        g = env.p(a.off.reshape(-1)[0]) * z3.RealVal(str(1 / (-a.k)))
+        prod = None
+        for t, b in zip(args, beta):
+            f = _pow(t, int(b))
+            prod = f if prod is None else prod * f
+        return [t >= 0 for t in args] + [z3.Or(g <= 0, _pow(g, int(sum(beta))) <= prod)]
+    return None
 
 
 def cons_eval(c, assign, tol=1e-7):
     """Float evaluation of the violation of a constraint at a numeric assignment."""
     import math
     worst = -1e300
+    if isinstance(c, OCustom):
+        return c.evalfn(assign)
     if c.is_atom():
         a = c.expr
         if a.kind == 'max':
